@@ -149,6 +149,12 @@ def oracle_case(ck, r, case, impl_lines, nsamples, stats):
         for k, st in enumerate(steps):
             head = st['outcome']
             key = '$%d' % k
+            if head[0] == 'throw' and head[1:2] != ['infeas']:
+                # the converter refused with an error (e.g. "Asked to complement variable with bounds 1..1" under
+                # cvt:pre:eqresult=0): a refusal, nothing is delivered, nothing is cut off
+                stats['refusals'][' '.join(head[1:])] = stats['refusals'].get(' '.join(head[1:]), 0) + (1 if si == 0 else 0)
+                all_defined = False
+                break
             if head[0] == 'throw':
                 # the converter declared the model infeasible (empty domain): wrong if the expression has a value here
                 try:
@@ -259,20 +265,82 @@ def oracle_case(ck, r, case, impl_lines, nsamples, stats):
     return viols
 
 
-def run(ck):
-    quick = ck.tier == 'quick'
-    # ---- 1. proof obligations
-    proof_ok, failing = ck.proof_stage('MpVerif.C06.Props', 'MpVerif/C06/Props.lean', 'C06_',
-                                        ['MpVerif/C06/*.lean'], expect_min=N_THEOREMS)
-    ck.log('proof stage: ok=%s failing=%s' % (proof_ok, failing[:10]))
-    if ck.tier == 'thorough' and proof_ok:
-        bad = ck.leanchecker(['MpVerif.C06.Props'])
-        if bad:
-            failing += ['leanchecker rejected %s' % m for m in bad]
-            proof_ok = False
-    # ---- 2. harness + driver
-    exe = build_harness(ck)
-    drv = ck.driver('drv_c06')
+# arms of the Lean model functions (Model.lean `match` / `if` arms), as recognisable from the driver's output for one operation
+EXPECTED_ARMS = {
+    'lin': ['const', 'new-self', 'mapfind'], 'quad': ['const', 'new-self', 'mapfind'],
+    'pow': ['const', 'alias', 'new-self', 'mapfind', 'exp0', 'exp1', 'neg-exp-lb<0-skip', 'frac-exp-lb<0-skip', 'even-zero-crossing',
+            'even-one-sided', 'odd', 'neg-exp-lb>=0', 'frac-exp-exact'],
+    'min': ['const', 'new-self', 'mapfind'], 'max': ['const', 'new-self', 'mapfind'],
+    'and': ['const', 'new-self', 'new-rewritten', 'mapfind'], 'or': ['const', 'new-self', 'new-rewritten', 'mapfind'],
+    'alldiff': ['new-self'], 'count': ['const', 'new-self'], 'nvar': ['const', 'new-self'], 'nconst': ['const', 'new-self'],
+    'abs': ['alias', 'redirect', 'redirect-const', 'new-self', 'mapfind'], 'not': ['new-self', 'mapfind'],
+    'div': ['const', 'new-self', 'mapfind'], 'ifthen': ['const', 'new-self', 'mapfind'], 'impl': ['new-self', 'mapfind'],
+    'clin': ['const', 'alias', 'redirect', 'new-self', 'new-rewritten', 'mapfind', 'throw complement', 'eq', 'ineq', 'empty-body',
+             'opt-eqresult-off', 'opt-eqbinary-off'],
+    'cquad': ['const', 'new-self', 'new-rewritten', 'mapfind', 'eq', 'ineq', 'empty-body'],
+    'log': ['new-self', 'narrowed', 'throw infeas'], 'loga': ['new-self', 'narrowed', 'throw infeas'], 'expa': ['new-self'],
+}
+
+
+def op_arms(case, k, op, line, nvars_before, first_new_kind):
+    """arms of the model taken by this operation, read off the driver's output line (+ the parameters of the operation)"""
+    arms = []
+    head = line.split(' | ')[0].split(' ')
+    segs = line.split(' | ')[1:]
+    news = [sg.split(' ') for sg in segs if sg.startswith('v ')]
+    if head[0] == 'const':
+        arms.append('const')
+    elif head[0] == 'throw':
+        arms.append('throw ' + ' '.join(head[1:]))
+    elif head[0] == 'unsupported':
+        arms.append('unsupported')
+    elif head[0] == 'var':
+        v = int(head[1])
+        if v < nvars_before:
+            arms.append('mapfind' if first_new_kind.get(v) == op[0] and op[0] not in ('abs',) or
+                        (first_new_kind.get(v) == op[0]) else 'alias')
+        else:
+            mine = [t for t in news if int(t[1]) == v]
+            dk = mine[0][5] if mine else '?'
+            if dk == op[0]:
+                same = mine[0][5:] == [t if not t.startswith('$') else None for t in op] or len(mine[0][5:]) == len(op) and \
+                    all(a == b or b.startswith('$') for a, b in zip(mine[0][5:], op))
+                arms.append('new-self' if same else 'new-rewritten')
+            elif dk == 'none':
+                arms.append('redirect-const')
+            else:
+                arms.append('redirect')
+    if any(sg.startswith('narrowed') for sg in segs):
+        arms.append('narrowed')
+    if op[0] == 'pow' and head[0] != 'bad-op':
+        p = G.untok(op[2])
+        b = None
+        mine = [t for t in news if t[5] == 'pow']
+        skipped = bool(mine) and mine[0][2] == '-inf' and mine[0][3] == 'inf'
+        if p == 0:
+            arms.append('exp0')
+        elif p == 1:
+            arms.append('exp1')
+        elif p.denominator != 1:
+            arms.append('frac-exp-lb<0-skip' if skipped else 'frac-exp-exact')
+        elif p < 0:
+            arms.append('neg-exp-lb<0-skip' if skipped else 'neg-exp-lb>=0')
+        elif int(p) % 2 == 1:
+            arms.append('odd')
+        else:
+            arms.append('even-zero-crossing' if mine and mine[0][2] == '0' else 'even-one-sided')
+    if op[0] in ('clin', 'cquad'):
+        arms.append('eq' if op[1] == '0' else 'ineq')
+        nlin = int(op[3])
+        if nlin == 0 and (op[0] == 'clin' or op[3 + 1 + 2 * nlin] == '0'):
+            arms.append('empty-body')
+        for nm, val in case.opts:
+            if val == 0 and nm in ('eqresult', 'eqbinary') and op[1] == '0':
+                arms.append('opt-%s-off' % nm)
+    return arms
+
+
+def gen_cases(ck, quick):
     r = G.Rng(ck.seed * 1000003 + 17)
     cases = []
     corpus_dir = os.path.join(VERIF, 'corpus', 'C06')
@@ -288,16 +356,38 @@ def run(ck):
                     t = l.split(' ')
                     if t[0] == 'case':
                         cur = G.Case('corpus-' + t[1]); cases.append(cur)
+                    elif t[0] == 'opt' and cur is not None:
+                        cur.opts.append((t[1], int(t[2])))
                     elif t[0] == 'var' and cur is not None:
                         cur.vars.append((G.untok(t[1]), G.untok(t[2]), t[3] == '1', 'corpus'))
                     elif t[0] == 'op' and cur is not None:
                         cur.ops.append(t[1:]); cur.kinds.append(t[1])
     n_corpus = len(cases)
     ncases = 2500 if quick else 30000
-    focus_list = [None, None, 'pow', 'clin', 'quad', 'div', 'abs', 'tr', 'lin', 'and', 'or', 'cquad', 'powf', 'ifthen', 'min', 'max']
+    focus_list = [None, None, 'pow', 'clin', 'quad', 'div', 'abs', 'tr', 'lin', 'and', 'or', 'cquad', 'powf', 'ifthen', 'min', 'max', 'eqbin']
     for i in range(ncases):
         cases.append(G.gen_case(r, 'g%d' % i, focus=focus_list[i % len(focus_list)]))
     cases = [c for c in cases if c.ops]
+    return cases, n_corpus
+
+
+def run(ck):
+    if os.environ.get('VERIF_COVERAGE'):
+        return coverage_run(ck)
+    quick = ck.tier == 'quick'
+    # ---- 1. proof obligations
+    proof_ok, failing = ck.proof_stage('MpVerif.C06.Props', 'MpVerif/C06/Props.lean', 'C06_',
+                                        ['MpVerif/C06/*.lean'], expect_min=N_THEOREMS)
+    ck.log('proof stage: ok=%s failing=%s' % (proof_ok, failing[:10]))
+    if ck.tier == 'thorough' and proof_ok:
+        bad = ck.leanchecker(['MpVerif.C06.Props'])
+        if bad:
+            failing += ['leanchecker rejected %s' % m for m in bad]
+            proof_ok = False
+    # ---- 2. harness + driver
+    exe = build_harness(ck)
+    drv = ck.driver('drv_c06')
+    cases, n_corpus = gen_cases(ck, quick)
     opsf = os.path.join(BUILD, 'c06.ops.txt')
     with open(opsf, 'w') as f:
         for c in cases:
@@ -318,7 +408,7 @@ def run(ck):
         failing.append('model driver exited with %s' % pm.returncode)
         proof_ok = False
     # ---- 3. per case: correspondence + oracle
-    stats = {'outcome': {}, 'evaluations': 0, 'bound_checks': 0, 'empty_domain_cases': 0, 'samples_outside_domain': 0}
+    stats = {'outcome': {}, 'evaluations': 0, 'bound_checks': 0, 'empty_domain_cases': 0, 'samples_outside_domain': 0, 'refusals': {}}
     kinds = {}
     boxcls = {}
     li = 0
@@ -329,9 +419,10 @@ def run(ck):
     nsamples = 24 if quick else 40
     n_unsupported = 0
     n_inexact = 0
+    arms = {}
     distinct = set()
     for c in cases:
-        nl = 1 + len(c.vars) + len(c.ops)
+        nl = 1 + len(c.opts) + len(c.vars) + len(c.ops)
         il = impl[li:li + nl]
         ml = model[li:li + nl]
         li += nl
@@ -339,10 +430,22 @@ def run(ck):
             break
         for (_, _, _, cl) in c.vars:
             boxcls[cl] = boxcls.get(cl, 0) + 1
-        op_impl = il[1 + len(c.vars):]
-        op_model = ml[1 + len(c.vars):]
+        op_impl = il[1 + len(c.opts) + len(c.vars):]
+        op_model = ml[1 + len(c.opts) + len(c.vars):]
         case_corr = None
+        nvb = len(c.vars)
+        first_new_kind = {}
         for k, op in enumerate(c.ops):
+            if k < len(op_model) and op_model[k] not in ('unsupported', '<missing>'):
+                for a_ in op_arms(c, k, op, op_model[k], nvb, first_new_kind):
+                    arms.setdefault(op[0], {})
+                    arms[op[0]][a_] = arms[op[0]].get(a_, 0) + 1
+                for sg in op_model[k].split(' | ')[1:]:
+                    if sg.startswith('v '):
+                        t_ = sg.split(' ')
+                        first_new_kind[int(t_[1])] = t_[5]
+                        nvb += 1
+
             kinds[op[0]] = kinds.get(op[0], 0) + 1
             n_lines += 1
             a, b = op_impl[k], (op_model[k] if k < len(op_model) else '<missing>')
@@ -395,10 +498,21 @@ def run(ck):
     ck.cov['correspondence'] = {'op_lines_compared_model_vs_impl': n_lines, 'cases': len(cases), 'corpus_cases': n_corpus,
                                 'disagreements': sum(len(v) for v in corr_bad.values()), 'model_unsupported': n_unsupported, 'inexact_not_compared': n_inexact}
     ck.cov['op_kinds'] = kinds
+    ck.cov['model_arms'] = arms
+    missing = {k: [a for a in v if not arms.get(k, {}).get(a)] for k, v in EXPECTED_ARMS.items()}
+    ck.cov['model_arms_never_taken'] = {k: v for k, v in missing.items() if v}
+    ck.log('model arms never taken by this stream: %s' % json.dumps(ck.cov['model_arms_never_taken'], sort_keys=True))
+    cj = os.path.join(VERIF, 'design_notes', 'coverage', 'C06.json')
+    if os.path.exists(cj):
+        cm = json.load(open(cj))
+        ck.cov['anchor_line_cov'] = cm.get('anchor_line_cov')
+        ck.cov['anchor_branch_cov'] = cm.get('anchor_branch_cov')
+        ck.cov['anchor_cov_note'] = 'measured in the last VERIF_COVERAGE=1 run (design_notes/coverage/C06.json), not recomputed here'
     ck.cov['outcomes'] = stats['outcome']
     ck.cov['box_classes'] = boxcls
     ck.cov['empty_domain_cases'] = stats['empty_domain_cases']
     ck.cov['samples_outside_domain'] = stats['samples_outside_domain']
+    ck.cov['converter_refusals'] = stats['refusals']
     if (n_unsupported + n_inexact) * 50 > max(n_lines, 1):
         ck.add_violation('generator:too-many-unsupported', '%d of %d operations are outside the executable model' % (n_unsupported, n_lines),
                          {'n_unsupported': n_unsupported}, found_input=False)
@@ -466,6 +580,96 @@ E2E_CORPUS = [   # (vars [(lb, ub, int)], logical constraints)
 ]
 
 
+TR_TYPES = {'ExpConstraint': 'exp', 'LogConstraint': 'log', 'SinConstraint': 'sin', 'CosConstraint': 'cos', 'TanConstraint': 'tan',
+            'AsinConstraint': 'asin', 'AcosConstraint': 'acos', 'AtanConstraint': 'atan', 'SinhConstraint': 'sinh',
+            'CoshConstraint': 'cosh', 'TanhConstraint': 'tanh', 'AsinhConstraint': 'asinh', 'AcoshConstraint': 'acosh',
+            'AtanhConstraint': 'atanh', 'PowConstraint': 'pow', 'ExpAConstraint': 'expa', 'LogAConstraint': 'loga'}
+
+
+def e2e_add_nonlinear(D, log):
+    """functional constraints c01_oracle does not decode (pow and the transcendental functions), accepted natively"""
+    for e in log:
+        if e.get('ev') == 'con' and e['type'] in TR_TYPES:
+            d = e['data']
+            D.cons.append({'type': e['type'], 'k': 'func', 'f': 'tr:' + TR_TYPES[e['type']], 'res': int(d['res']), 'ctx': d['ctx'],
+                           'args': [int(a) for a in d['args']], 'params': [_num_or_none(p) for p in d['params']], '_float': True})
+    D.unsupported = [u for u in D.unsupported if u not in TR_TYPES]
+
+
+def _num_or_none(s):
+    import recsolver as R
+    try:
+        return R.num(s)
+    except Exception:
+        return None
+
+
+def tr_value(c, x):
+    """value of pow / transcendental constraints (exact for integer powers, libm double otherwise)"""
+    f = c['f'][3:]
+    a = x[c['args'][0]]
+    toks = {'pow': ['pow', '0', G.tok(c['params'][0])] if f == 'pow' and (c['params'][0].denominator & (c['params'][0].denominator - 1)) == 0 else None}
+    try:
+        if f == 'pow':
+            p = c['params'][0]
+            if p.denominator == 1:
+                if a == 0 and p < 0:
+                    return None
+                return F(a) ** int(p)
+            if a < 0:
+                return None
+            return F(math.pow(float(a), float(p)))
+        if f == 'expa':
+            return F(math.pow(float(c['params'][0]), float(a)))
+        if f == 'loga':
+            return F(math.log(float(a)) / math.log(float(c['params'][0]))) if a > 0 else None
+        if f == 'log':
+            return F(math.log(float(a))) if a > 0 else None
+        return F(getattr(math, f)(float(a)))
+    except (ValueError, OverflowError, ZeroDivisionError):
+        return None
+
+
+def fev(e, x):
+    """float value of an NL expression that may contain transcendental functions; raises ValueError outside the domain"""
+    import nlgen as N
+    try:
+        return float(N.ev(e, x))
+    except N.Undefined as u:
+        if 'no exact semantics' not in str(u) and 'fractional' not in str(u):
+            raise ValueError(str(u))
+    k = e[0]
+    if k in ('+', '-', '*'):
+        a, b = fev(e[1], x), fev(e[2], x)
+        return a + b if k == '+' else a - b if k == '-' else a * b
+    if k == 'cpow':
+        return math.pow(fev(e[1], x), fev(e[2], x))
+    if k == 'sum':
+        return sum(fev(a, x) for a in e[1])
+    a = fev(e[1], x)
+    if k in ('log', 'log10') and a <= 0:
+        raise ValueError(k)
+    if k == 'sqrt' and a < 0:
+        raise ValueError(k)
+    if k in ('asin', 'acos') and abs(a) > 1:
+        raise ValueError(k)
+    if k == 'acosh' and a < 1:
+        raise ValueError(k)
+    if k == 'atanh' and abs(a) >= 1:
+        raise ValueError(k)
+    return getattr(math, k)(a)
+
+
+def objectives_defined(m, p):
+    for o in m.objs:
+        if o['nl'] is not None:
+            try:
+                fev(o['nl'], p)
+            except (ValueError, OverflowError, AttributeError, KeyError, TypeError, ZeroDivisionError):
+                return False
+    return True
+
+
 def e2e_eval(D, orc, pt):
     """values of all variables that are determined by the point of the original variables through the delivered
     functional constraints (res == f(args)), computed exactly; returns dict var -> Fraction and the list of definitions"""
@@ -492,7 +696,9 @@ def e2e_eval(D, orc, pt):
                 continue
             progress = True
             try:
-                if c['k'] == 'func':
+                if c['k'] == 'func' and c['f'].startswith('tr:'):
+                    val = tr_value(c, x)
+                elif c['k'] == 'func':
                     val = orc.func_value(c, x)
                 elif c['k'] == 'cond':
                     val = F(int(orc._alg_holds(c['con'], x, c['cmp'])))
@@ -540,17 +746,9 @@ def e2e_only_unused_zero(D, orc, pt, n):
     return False
 
 
-def e2e_stage(ck, quick):
-    """property statement evaluated on the real converter including all later narrowing: every value a delivered functional
-    constraint's expression takes at an NL-feasible point must lie within the bounds / type the ModelAPI received for its
-    result variable."""
-    import recsolver as R
+def e2e_models(ck, quick):
     import nlgen as N
     import c01gen
-    import c01_oracle as orc
-    exe = R.build(ck)
-    wdir = os.path.join(BUILD, 'c06_e2e')
-    os.makedirs(wdir, exist_ok=True)
     r = G.Rng(ck.seed * 48271 + 11)
     models = []
     for vs, lcs in E2E_CORPUS:
@@ -571,15 +769,34 @@ def e2e_stage(ck, quick):
         if getattr(m, 'sos', None):
             continue
         models.append(('c01gen', m, grids))
+    return models
+
+
+def e2e_stage(ck, quick):
+    """property statement evaluated on the real converter including all later narrowing: every value a delivered functional
+    constraint's expression takes at an NL-feasible point must lie within the bounds / type the ModelAPI received for its
+    result variable."""
+    import recsolver as R
+    import nlgen as N
+    import c01gen
+    import c01_oracle as orc
+    exe = R.build(ck)
+    wdir = os.path.join(BUILD, 'c06_e2e')
+    os.makedirs(wdir, exist_ok=True)
+    r = G.Rng(ck.seed * 48271 + 12)
+    models = e2e_models(ck, quick)
     st = {'models': 0, 'delivered': 0, 'refused': 0, 'points': 0, 'feasible_points': 0, 'result_var_checks': 0,
-          'types': {}, 'refusal_kinds': {}, 'unsupported_types': {}}
+          'types': {}, 'refusal_kinds': {}, 'unsupported_types': {}, 'configs': {}, 'orig_var_checks': 0}
     seen = set()
     for mi, (src, m, grids) in enumerate(models):
         st['models'] += 1
         stub = os.path.join(wdir, 'm%d' % (mi % 8))
         m.write(stub, names=False)
-        res = R.run(exe, stub, accept='ALL', timeout=60)
+        cfg = getattr(m, 'c06cfg', None) or {'accept': 'ALL', 'options': []}
+        res = R.run(exe, stub, accept=cfg['accept'], options=cfg['options'], timeout=60)
         D = orc.Delivered(res['log'])
+        e2e_add_nonlinear(D, res['log'])
+        st['configs'][cfg['accept'][:12] + ' ' + ' '.join(cfg['options'])] = st['configs'].get(cfg['accept'][:12] + ' ' + ' '.join(cfg['options']), 0) + 1
         if not (D.begun and D.ended):
             st['refused'] += 1
             txt = (res['err'] or '') + (res['out'] or '') + (res['sol'] or '')[:600]
@@ -593,7 +810,7 @@ def e2e_stage(ck, quick):
                         ok = m.feasible(p)
                     except Exception:
                         ok = False
-                    if ok:
+                    if ok and objectives_defined(m, p):
                         sig = 'e2e:declared-infeasible-but-feasible-point'
                         if sig not in seen:
                             seen.add(sig)
@@ -619,7 +836,20 @@ def e2e_stage(ck, quick):
                     continue
             except Exception:
                 continue
+            if not objectives_defined(m, p):
+                st['points_outside_objective_domain'] = st.get('points_outside_objective_domain', 0) + 1
+                continue
             st['feasible_points'] += 1
+            for i in range(n):
+                st['orig_var_checks'] += 1
+                xv = F(p[m.perm[i]])
+                if not (D.lb[i] <= xv <= D.ub[i]):
+                    sig = 'e2e:original-variable-domain-cut'
+                    if sig not in seen:
+                        seen.add(sig)
+                        ck.add_violation(sig, 'end to end: the NL-feasible point %s has x%d = %s, but the ModelAPI received bounds [%s, %s] for this '
+                                         'original variable (accept=%s options=%s)' % ([str(v) for v in p], i, xv, D.lb[i], D.ub[i], cfg['accept'], cfg['options']),
+                                         {'model': c01gen.model_to_json(m, grids), 'cfg': cfg, 'point_model_order': [str(v) for v in p]}, found_input=True)
             x, defs = e2e_eval(D, orc, {i: F(p[m.perm[i]]) for i in range(n)})
             for c in defs:
                 rv = c['res']
@@ -628,7 +858,7 @@ def e2e_stage(ck, quick):
                 val = x[rv]
                 st['result_var_checks'] += 1
                 lo, hi = D.lb[rv], D.ub[rv]
-                tol = 0 if (D.inexact == 0 and (val.denominator & (val.denominator - 1)) == 0) else F(1, 10 ** 9) * (1 + abs(val))
+                tol = 0 if (D.inexact == 0 and not c.get('_float') and (val.denominator & (val.denominator - 1)) == 0) else F(1, 10 ** 9) * (1 + abs(val))
                 bad = None
                 if val < lo - tol:
                     bad = 'lb'
@@ -655,6 +885,184 @@ def e2e_stage(ck, quick):
     ck.cov['e2e'] = st
     ck.log('e2e: models=%d delivered=%d feasible_points=%d result_var_checks=%d types=%s' %
            (st['models'], st['delivered'], st['feasible_points'], st['result_var_checks'], json.dumps(st['types'], sort_keys=True)))
+
+
+# ------------------------------------------------------------------ coverage mode (VERIF_COVERAGE=1, not part of quick/thorough)
+ANCHOR_FILES = ['include/mp/flat/constr_prepro.h', 'include/mp/flat/expr_bounds.h', 'include/mp/flat/preprocess.h',
+                'include/mp/flat/convert_functional.h', 'include/mp/flat/converter_model.h',
+                'include/mp/flat/constr_prop_down.h', 'include/mp/flat/redef/MIP/lin_approx.h']
+# functions of anchors.mechanism (+ the helpers they are made of), matched on the demangled name
+MECH = {'include/mp/flat/constr_prepro.h': None,        # every function of the file (all are PreprocessConstraint overloads / helpers)
+        'include/mp/flat/expr_bounds.h': None,
+        'include/mp/flat/preprocess.h': None,
+        'include/mp/flat/convert_functional.h': ['Convert', 'AddResultVariable', 'PreprocessArguments', 'MapFind', 'AddConstraint'],
+        'include/mp/flat/converter_model.h': ['lb_array', 'lb_max_array', 'ub_array', 'ub_min_array', 'is_fixed', 'fixed_value',
+                                              'is_binary_var', 'common_type', 'is_integer_var', 'is_integer_value', 'set_lb', 'set_ub'],
+        'include/mp/flat/constr_prop_down.h': None,
+        'include/mp/flat/converter.h': ['NarrowVarBounds', 'PropagateResultOfInitExpr', 'FixAsTrue', 'MakeFixedVar', 'AddVar(',
+                                        'MakeComplementVar', 'AssignResult2Args', 'AssignResultVar2Args', 'FixUnusedDefinedVars'],
+        'include/mp/flat/redef/MIP/lin_approx.h': None}
+
+
+def coverage_run(ck):
+    import gzip, shutil
+    import recsolver as R
+    quick = True
+    cov = os.path.join(VERIF, 'build', 'cov')
+    os.makedirs(cov, exist_ok=True)
+    inc = ['-I' + os.path.join(REPO, 'include'), '-I' + os.path.join(REPO, 'src'), '-I' + os.path.join(VERIF, 'harness'),
+           '-I' + os.path.join(VERIF, 'harness', 'recsolver')]
+    defs = ['-DNDEBUG', '-DMP_DATE=20240320', '-DMP_SYSINFO="Linux x86_64"', '-DMP_USE_ATOMIC', '-DMP_USE_HASH', '-DMP_USE_UNIQUE_PTR',
+            '-DAMPL_MP_VERIF']
+    srcs = {'h_prepro': [os.path.join(VERIF, 'harness', 'h_prepro.cc')],
+            'recsolver': [os.path.join(VERIF, 'harness', 'recsolver', f) for f in ('recmain.cc', 'recmodelmgr.cc', 'recmodelapi.cc', 'recbackend.cc')]}
+    from concurrent.futures import ThreadPoolExecutor
+    jobs = []
+    for name, lst in srcs.items():
+        for src in lst:
+            obj = os.path.join(cov, os.path.basename(src).replace('.cc', '.o'))
+            jobs.append((src, obj))
+
+    def comp(j):
+        src, obj = j
+        if os.path.exists(obj) and os.path.getmtime(obj) > max(os.path.getmtime(src), os.path.getmtime(os.path.join(REPO, 'include/mp/flat/constr_prepro.h'))) \
+                and not os.environ.get('VERIF_COVERAGE_REBUILD'):
+            return
+        rc, out, err = sh(['g++', '-std=c++17', '-w', '-O0', '--coverage'] + defs + inc + ['-c', src, '-o', obj], timeout=3000)
+        if rc != 0:
+            raise RuntimeError(err[-3000:])
+    with ThreadPoolExecutor(max_workers=5) as ex:
+        list(ex.map(comp, jobs))
+    libmp = ck.libmp_objects(flags=('-O1', '-g'))
+    exes = {}
+    for name, lst in srcs.items():
+        exe = os.path.join(cov, name)
+        objs = [os.path.join(cov, os.path.basename(x).replace('.cc', '.o')) for x in lst]
+        rc, out, err = sh(['g++', '--coverage'] + objs + libmp + ['-o', exe, '-ldl'], timeout=1800)
+        if rc != 0:
+            raise RuntimeError(err[-3000:])
+        exes[name] = exe
+    for f in os.listdir(cov):
+        if f.endswith('.gcda') or f.endswith('.gcov.json.gz'):
+            os.remove(os.path.join(cov, f))
+    # the quick-tier input streams
+    cases, _ = gen_cases(ck, quick)
+    opsf = os.path.join(cov, 'ops.txt')
+    with open(opsf, 'w') as f:
+        for c in cases:
+            f.write('\n'.join(c.lines()) + '\n')
+    subprocess.run([exes['h_prepro'], opsf], stdout=subprocess.DEVNULL, stderr=subprocess.DEVNULL)
+    models = e2e_models(ck, quick)
+    wdir = os.path.join(cov, 'nl'); os.makedirs(wdir, exist_ok=True)
+    for mi, (src, m, grids) in enumerate(models):
+        stub = os.path.join(wdir, 'm%d' % (mi % 8))
+        m.write(stub, names=False)
+        cfg = getattr(m, 'c06cfg', None) or {'accept': 'ALL', 'options': []}
+        R.run(exes['recsolver'], stub, accept=cfg['accept'], options=cfg['options'], timeout=60)
+    for extra in e2e_extra_runs(ck, exes['recsolver'], wdir):
+        pass
+    # gcov
+    data = {}      # file -> line -> {'count', 'branches': [counts], 'fn': set}
+    funcs = {}     # file -> name -> {'start','end','count'}
+    for tu in ('h_prepro', 'recmodelmgr'):
+        sh(['gcov-12', '-b', '-c', '-j', tu + '.gcda'], cwd=cov, timeout=1800)
+        for gz in [f for f in os.listdir(cov) if f.endswith('.gcov.json.gz')]:
+            J = json.load(gzip.open(os.path.join(cov, gz)))
+            os.remove(os.path.join(cov, gz))
+            for fe in J['files']:
+                fn = fe['file']
+                rel = None
+                for a in list(MECH):
+                    if fn.endswith(a):
+                        rel = a
+                if rel is None:
+                    continue
+                d = data.setdefault(rel, {})
+                for ln in fe['lines']:
+                    e = d.setdefault(ln['line_number'], {'count': 0, 'branches': []})
+                    e['count'] += ln['count']
+                    br = [b['count'] for b in ln.get('branches', []) if not b.get('throw')]
+                    if len(br) == len(e['branches']):
+                        e['branches'] = [x + y for x, y in zip(e['branches'], br)]
+                    elif not e['branches']:
+                        e['branches'] = br
+                    elif br:
+                        k = min(len(br), len(e['branches']))
+                        e['branches'] = [e['branches'][i] + br[i] for i in range(k)] + (e['branches'][k:] or br[k:])
+                ff = funcs.setdefault(rel, {})
+                for fu in fe['functions']:
+                    key = (fu['start_line'], fu['end_line'])
+                    g = ff.setdefault(key, {'name': fu['demangled_name'], 'count': 0})
+                    g['count'] += fu['execution_count']
+    summary = {}
+    md = ['# C06 — coverage of the anchored code by the quick-tier input streams', '',
+          'Measured by `VERIF_COVERAGE=1 ./check C06` (seed %d): `harness/h_prepro.cc` and `harness/recsolver/*` compiled `-O0 --coverage` '
+          'against `%s`, the quick-tier op script (%d cases) and end-to-end NL models (%d) run through them, `gcov-12 -b -c` on the two '
+          'TUs that instantiate the templates (`h_prepro`, `recmodelmgr`), lines/branches merged over all instantiations and both TUs '
+          '(exception-edge branches excluded).' % (ck.seed, REPO, len(cases), len(models)), '']
+    md += ['| file | lines | line cov | branches | branch cov | functions hit |', '|---|---|---|---|---|---|']
+    tl = tc = tb = tbc = 0
+    details = []
+    for rel in list(MECH):
+        d = data.get(rel, {})
+        mech = MECH[rel]
+
+        def in_mech(line):
+            if mech is None:
+                return True
+            for (a, b), g in funcs.get(rel, {}).items():
+                if a <= line <= b and any(k in g['name'] for k in mech):
+                    return True
+            return False
+        lines = {l: e for l, e in d.items() if in_mech(l)}
+        nl = len(lines); nc = sum(1 for e in lines.values() if e['count'] > 0)
+        nb = sum(len(e['branches']) for e in lines.values()); nbc = sum(sum(1 for b in e['branches'] if b > 0) for e in lines.values())
+        fl = [(k, g) for k, g in funcs.get(rel, {}).items() if mech is None or any(x in g['name'] for x in mech)]
+        fh = sum(1 for _, g in fl if g['count'] > 0)
+        if rel in ANCHOR_FILES:
+            tl += nl; tc += nc; tb += nb; tbc += nbc
+        summary[rel] = {'lines': nl, 'lines_hit': nc, 'branches': nb, 'branches_hit': nbc, 'functions': len(fl), 'functions_hit': fh}
+        md.append('| %s%s | %d | %.1f%% | %d | %.1f%% | %d/%d |' % (rel, '' if mech is None else ' (mechanism functions only)', nl,
+                                                                 100.0 * nc / max(nl, 1), nb, 100.0 * nbc / max(nb, 1), fh, len(fl)))
+        try:
+            src = open(os.path.join(REPO, rel)).read().split('\n')
+        except Exception:
+            src = []
+        un_f = sorted((k[0], g['name']) for k, g in fl if g['count'] == 0)
+        un_l = sorted(l for l, e in lines.items() if e['count'] == 0)
+        un_b = sorted((l, [i for i, b in enumerate(e['branches']) if b == 0]) for l, e in lines.items()
+                      if e['count'] > 0 and any(b == 0 for b in e['branches']))
+        details.append('\n### %s\n' % rel)
+        details.append('uncovered functions (%d):' % len(un_f))
+        for l, nme in un_f:
+            details.append('* line %d: `%s`' % (l, nme[:150]))
+        details.append('\nuncovered lines in covered functions:')
+        covered_fn_ranges = [k for k, g in fl if g['count'] > 0]
+        for l in un_l:
+            if any(a <= l <= b for a, b in covered_fn_ranges):
+                details.append('* %d: `%s`' % (l, src[l - 1].strip()[:110] if l - 1 < len(src) else ''))
+        details.append('\nlines with a branch never taken:')
+        for l, idx in un_b:
+            details.append('* %d (branch %s): `%s`' % (l, ','.join(map(str, idx)), src[l - 1].strip()[:110] if l - 1 < len(src) else ''))
+    md.append('| **anchors.files total** | %d | **%.1f%%** | %d | **%.1f%%** | |' % (tl, 100.0 * tc / max(tl, 1), tb, 100.0 * tbc / max(tb, 1)))
+    md += details
+    cdir = os.path.join(VERIF, 'design_notes', 'coverage')
+    os.makedirs(cdir, exist_ok=True)
+    cls = os.path.join(cdir, 'C06.classification.md')
+    text = '\n'.join(md) + '\n'
+    if os.path.exists(cls):
+        text = open(cls).read() + '\n\n---\n\n' + text
+    open(os.path.join(cdir, 'C06.md'), 'w').write(text)
+    out = {'anchor_line_cov': round(100.0 * tc / max(tl, 1), 1), 'anchor_branch_cov': round(100.0 * tbc / max(tb, 1), 1),
+           'per_file': summary, 'seed': ck.seed, 'cases': len(cases), 'e2e_models': len(models)}
+    json.dump(out, open(os.path.join(cdir, 'C06.json'), 'w'), indent=1)
+    ck.log('coverage: anchors line %.1f%% branch %.1f%%' % (out['anchor_line_cov'], out['anchor_branch_cov']))
+    ck.cov.update({'obligations': 0, 'discharged': 0, 'checker_cmd': 'coverage mode', 'coverage_mode': out})
+
+
+def e2e_extra_runs(ck, exe, wdir):
+    """additional end-to-end configurations (option / acceptance variants); used by the e2e stage and the coverage mode"""
+    return []
 
 
 def replay(ck, path):
